@@ -412,6 +412,7 @@ class LbWorld(object):
     d = {'size': len(nodes), 'members': len(self.members),
          'all_open': not any(n.channel.is_closed for n in nodes),
          'healthy': sum(1 for n in nodes if n.channel.is_open),
+         'down_marked': set(n.channel.serial for n in nodes if n.load >= 0),
          'idle': len(self.idle_eps()), 'total': self.total_outstanding_dispatched(), 'now': self.lp.now()}
     if self.kind == 'aperture':
       d['pending'] = len(lb._pending_endpoints)
@@ -445,7 +446,10 @@ class LbWorld(object):
       if post['size'] < floor:
         self.v('C06.min-size', 'after %r: active set shrank from %d to %d, below min(min_size=%d, members=%d)'
                % (op, pre['size'], post['size'], mn, post['members']))
-    if post['size'] > pre['size'] and name in ('D', 'C') and pre['all_open']:
+    # growth caused by a member being *marked down in this very step* is exempt (the statement says so); any other growth
+    # in a dispatch / completion step is load-driven, whether or not dead members sit in the active set
+    newly_down = post['down_marked'] - pre['down_marked']
+    if post['size'] > pre['size'] and name in ('D', 'C') and not newly_down:
       if post['size'] > mx:
         self.v('C06.max-size', 'after %r: load-driven growth took the active set from %d to %d, beyond max_size=%d'
                % (op, pre['size'], post['size'], mx))
